@@ -108,12 +108,28 @@ CellClauses(e) ==
                \cup If(\E x \in Range(c.surplus) : Len(x[2]) = 0, V("C11", l, "NoEmptySurplusList"))
            : c \in Range(e.cells)}
 
-(* C10 on the recorded run: targets of the three families (from the fresh generators and the occupancy) partition *)
+(* C10 on the recorded run: the targets of the three cell-based families partition the other relevant units *)
+NearbyCell(sysm, a, c) == \A k \in DOMAIN sysm.per_side :
+                              LET d == (sysm.ids[c + 1][k] - sysm.ids[a + 1][k]) % sysm.per_side[k] IN
+                              d <= sysm.layers \/ sysm.per_side[k] - d <= sysm.layers
 PartitionClauses(e) ==
     UNION {LET sysm == Meta.cellsys[c.sys]
                rel  == Range(sysm.relevant)
-               tagsOf(kind) == {t \in Tags : KindOfTag(t) = kind /\ Has(Meta.taggers[t], "sys") /\ Meta.taggers[t].sys = c.sys}
-           IN  {}
+               tagsOf(kind) == {t \in Tags : KindOfTag(t) = kind /\ Meta.taggers[t].sys = c.sys /\ e.activated[t] = 1}
+               second(t) == {x[2] : x \in Range(FreshOf(e, t))}
+               rest(t) == UNION {{x[k] : k \in 2 .. Len(x)} : x \in Range(FreshOf(e, t))}
+               exT == tagsOf("excluded_cells")   suT == tagsOf("surplus_cells")
+               cbT == tagsOf("cell_bounding")    cvT == tagsOf("cell_veto")
+               near == IF exT = {} THEN {} ELSE second(CHOOSE t \in exT : TRUE)
+               sur  == IF suT = {} THEN {} ELSE second(CHOOSE t \in suT : TRUE)
+               far  == IF cbT # {} THEN rest(CHOOSE t \in cbT : TRUE)
+                       ELSE UNION {Range(x[2]) : x \in {y \in Range(c.occ) : ~NearbyCell(sysm, c.activeCell, y[1])}}
+               complete == exT # {} /\ suT # {} /\ (cbT # {} \/ cvT # {})
+           IN  IF c.activeUid = 0 \/ ~complete THEN {} ELSE
+               If((near \cup sur \cup far) # rel \ {c.activeUid},
+                  V("C10", l, "Partition: nearby, surplus and cell-veto/cell-bounding targets do not cover exactly the other relevant units"))
+               \cup If(near \cap sur # {} \/ near \cap far # {} \/ sur \cap far # {},
+                       V("C10", l, "Partition: a unit is treated by two cell-based families"))
            : c \in Range(e.cells)}
 
 RunStep(e) ==
@@ -131,7 +147,7 @@ RunStep(e) ==
                       : t \in Tags}
         free == If(\E h \in hs : running[h], V("C09", l, "ReturnedWereFree: activator returned a handler that is already running"))
     IN  /\ running' = run1 /\ runids' = ids1
-        /\ viol' = viol \cup c09 \cup free \cup CellClauses(e) \cup DescClauses(e)
+        /\ viol' = viol \cup c09 \cup free \cup CellClauses(e) \cup (IF e.prev = 0 THEN {} ELSE PartitionClauses(e)) \cup DescClauses(e)
         /\ UNCHANGED <<g, ver, pend, sched, lastT, cur, commitT, started, nsamp, ncand>>
 
 (* ======================================================================== time (Candidate) *)
@@ -144,6 +160,8 @@ CellVetoClauses(e) ==
         tg == sysm.ids[cv.target + 1]
         want == [k \in DOMAIN a |-> (a[k] + r[k]) % sysm.per_side[k]]
     IN  If(tg # want, V("C18", l, "CellVetoTarget: target cell is not the active unit's cell translated by the sampled offset"))
+        \cup If(tg # want \/ NearbyCell(sysm, cv.activeCell, cv.target),
+                V("C10", l, "Partition: cell-veto targets are not the non-nearby cells of the tracked active cell (a partner is missed or treated twice)"))
         \cup If(~KEq(cv.rate, cv.rateref), V("C18", l, "CellVetoBound: bound used differs from the table entry for (offset, direction, sign)"))
         \cup If((cv.signpos = 1 /\ cv.walker # "upper") \/ (cv.signpos = 0 /\ cv.walker # "lower"),
                 V("C18", l, "CellVetoWalkerSign: wrong walker for the sign of the charge factor"))
@@ -182,6 +200,9 @@ NextStep(e) ==
                ELSE If(e.hid \notin Handlers \/ sched[e.hid] = NoTime, V("C06", l, "MinOfLive: returned handler has no live event (trashed or never pushed)"))
                     \cup If(e.hid \in Handlers /\ sched[e.hid] # NoTime /\ \E x \in live : TKLt(sched[x], sched[e.hid]),
                             V("C06", l, "MinOfLive: a live event with a smaller time exists"))
+                    \cup If(e.hid \in Handlers /\ sched[e.hid] # NoTime /\ Has(e, "t") /\ e.t # NoTime /\ e.t # sched[e.hid],
+                            V("C06", l, "MinOfLive: returned time is not the time of the handler's live event (a trashed event was returned)")
+                            \cup V("C08", l, "NoStalePending: the scheduler returned a trashed candidate (computed from a trajectory that is no longer current)"))
                     \cup If(e.hid \in Handlers /\ sched[e.hid] # NoTime /\ TKLt(sched[e.hid], lastT),
                             V("C07", l, "TimesMonotone: selected event time decreases"))
     IN  /\ cur' = e.hid
@@ -314,7 +335,10 @@ TInit == /\ l = 2 /\ viol = DescClauses(Meta)
 
 TStep == /\ l <= Len(Log)
          /\ LET e == Log[l] IN
-            CASE e.ev = "run"    -> RunStep(e)
+            CASE Has(e, "hid") /\ e.ev \in {"time", "push", "strash", "out"} /\ e.hid \notin Handlers ->
+                     /\ viol' = viol \cup V("C06", l, "call for an event handler that the activator does not own")
+                     /\ UNCHANGED <<g, ver, pend, running, runids, sched, lastT, cur, commitT, started, nsamp, ncand>>
+              [] e.ev = "run"    -> RunStep(e)
               [] e.ev = "time"   -> TimeStep(e)
               [] e.ev = "push"   -> PushStep(e)
               [] e.ev = "next"   -> NextStep(e)
